@@ -637,6 +637,20 @@ def check_bool_number(ctx):
         return None
     spb_ = Spec(an, nv, decide_bool)
     rej_bool = not spb_.normal_returns() and not spb_.falls_off() and bool(spb_.raises())
+    # NaN compares false with every bound (`nan < min` and `nan > max` are both False): a bounded number field has to refuse it on
+    # its own -- `num != num`, math.isnan(num) -- or "0 <= value <= 1" holds a value that is neither
+    from engine.flow import guard_atoms as _ga
+    nan_rej = False
+    for r_ in [n for n in g.nodes if n.kind == "raise"]:
+        for e_, truth_, _t in _ga(an, nv, r_):
+            if isinstance(e_, ast.Compare) and len(e_.ops) == 1 and isinstance(e_.left, ast.Name) and isinstance(e_.comparators[0], ast.Name) \
+                    and e_.left.id == e_.comparators[0].id and ((isinstance(e_.ops[0], ast.NotEq) and truth_) or (isinstance(e_.ops[0], ast.Eq) and not truth_)):
+                nan_rej = True
+            if isinstance(e_, ast.Call) and ast.unparse(e_.func).split(".")[-1] in ("isnan", "isfinite"):
+                nan_rej = nan_rej or (truth_ if ast.unparse(e_.func).endswith("isnan") else not truth_)
+    ctx.ob("number.rejects-nan", nv, "NaN is refused", nan_rej, "NaN is refused before the bounds are compared" if nan_rej else
+           "NumberField._validate never refuses NaN: FloatField(min=0, max=1) accepts 'nan' (both bound comparisons are False for it) and holds a "
+           "value outside its bounds")
     ctx.ob("number.rejects-bool", nv, "isinstance(value, bool) -> raise", rej_bool, "True/False are not accepted as numbers" if rej_bool else
            "NumberField accepts bool values as numbers")
     from .common import called_attr
@@ -663,6 +677,45 @@ def check_bool_number(ctx):
                                                   for k, pl in value_sources(nv, q, t))
             ctx.ob("number.bounds-on-converted", nv, cmp_, okq, "bounds are compared with the converted number" if okq else
                    "bounds are compared with the unconverted input (a numeric string escapes the bound)", node=t)
+
+
+def check_regex_anchors(ctx):
+    r"""A pattern that is meant to describe the whole value and is applied with `.match()` in a validator has to end in `\Z` (or be
+    applied with `.fullmatch()`): `$` also matches before a trailing newline, so 'ab\n' passes a pattern written for 'ab'."""
+    import re as _re
+    try:
+        from re import _parser as _sre_parse, _constants as _sre_c
+    except ImportError:         # Python < 3.11
+        import sre_parse as _sre_parse, sre_constants as _sre_c
+    an, model = ctx.an, ctx.model
+    npat = 0
+    for c in model.classes.values():
+        if c.node is None:
+            continue
+        for name, val in c.class_attrs.items():
+            if not (isinstance(val, ast.Call) and ast.unparse(val.func) in ("re.compile", "compile") and val.args and isinstance(val.args[0], ast.Constant)
+                    and isinstance(val.args[0].value, str)):
+                continue
+            pat = val.args[0].value
+            try:
+                parsed = list(_sre_parse.parse(pat))
+            except Exception:
+                continue
+            if not parsed:
+                continue
+            npat += 1
+            last = parsed[-1]
+            loose_end = last[0] == _sre_c.AT and last[1] == _sre_c.AT_END          # `$` (AT_END_STRING is `\Z`)
+            anchored_start = parsed[0][0] == _sre_c.AT
+            uses = [x for f in an.fns() if f.node is not None and f.name in ("_validate", "validate") for x in ast.walk(f.node)
+                    if isinstance(x, ast.Call) and isinstance(x.func, ast.Attribute) and x.func.attr in ("match", "search", "fullmatch")
+                    and isinstance(x.func.value, ast.Attribute) and x.func.value.attr == name]
+            bad = [x for x in uses if x.func.attr != "fullmatch"] if (loose_end and anchored_start) else []
+            ctx.ob("regex.whole-value", c, "%s.%s = %r" % (c.name, name, pat[:40]), not bad,
+                   "the pattern cannot match a value with something after it" if not bad else
+                   "%s.%s ends in `$` and is applied with .%s(): a value with a trailing newline ('ab\\n') passes although the pattern describes "
+                   "'ab' -- use \\Z or fullmatch()" % (c.name, name, bad[0].func.attr), nontrivial=bool(uses))
+    ctx.need(npat >= 2, "the compiled patterns of the network fields were not found")
 
 
 def check_accepts_own_result(ctx):
@@ -713,6 +766,7 @@ def check(ctx):
     check_string_order(ctx)
     check_bytes_codec(ctx)
     check_bool_number(ctx)
+    check_regex_anchors(ctx)
     check_accepts_own_result(ctx)
     from .paths import check_filename_resolution
     check_filename_resolution(ctx)
